@@ -553,6 +553,10 @@ func (r *runningStep) provideEnablingInput(input map[string]any) error {
 	// This is an optional field, so no input means enabled.
 	enabled := input["enabled"] == nil || input["enabled"] == true
 	r.enabledInputAvailable = true
+	// Make sure we transition the state before unlocking so there are no race conditions.
+	if r.currentState == step.RunningStepStateWaitingForInput && r.currentStage == StageIDEnabling {
+		r.currentState = step.RunningStepStateRunning
+	}
 	r.enabledInput <- enabled
 	return nil
 }
@@ -643,6 +647,15 @@ func (r *runningStep) run() {
 // - bool: True if the step was disabled due to context done.
 func (r *runningStep) enableStage() (bool, bool) {
 	// Enabling is the first stage, so do not transition out of it.
+	r.lock.Lock()
+	// Only show as waiting if the input was not provided yet; the deadlock detection counts waiting steps.
+	// Without this, a step whose enabled input can never arrive keeps the workflow running forever.
+	if r.enabledInputAvailable {
+		r.currentState = step.RunningStepStateRunning
+	} else {
+		r.currentState = step.RunningStepStateWaitingForInput
+	}
+	r.lock.Unlock()
 	var enabled bool
 	select {
 	case enabled = <-r.enabledInput:
